@@ -1130,7 +1130,8 @@ def _emit_block(
         )
 
     lines: List[str] = []
-    for node in nodes:
+    nodes = list(nodes)
+    for node_index, node in enumerate(nodes):
         if type(node).__name__ == "Repeat":
             count = getattr(node, "count", 0)
             body = getattr(node, "body", [])
@@ -1172,22 +1173,33 @@ def _emit_block(
             continue
 
         if isinstance(node, ButtonPoll):
-            decl = button_decls.get(node.name)
-            if decl is None:
-                continue
-            pin_expr = _emit_expr(decl.pin)
-            next_var = f"__redu_button_next_{node.name}"
-            prev_var = f"__redu_button_prev_{node.name}"
-            value_var = f"__redu_button_value_{node.name}"
-            lines.append(
-                f"{indent}bool {next_var} = (digitalRead({pin_expr}) == HIGH);"
-            )
-            if decl.on_click:
-                lines.append(f"{indent}if ({next_var} && !{prev_var}) {{")
-                lines.append(f"{indent}  {decl.on_click}();")
-                lines.append(f"{indent}}}")
-            lines.append(f"{indent}{prev_var} = {next_var};")
-            lines.append(f"{indent}{value_var} = {next_var};")
+            if node_index > 0 and isinstance(nodes[node_index - 1], ButtonPoll):
+                continue  # emitted together with the first poll of this run
+            poll_run = []
+            for later in nodes[node_index:]:
+                if not isinstance(later, ButtonPoll):
+                    break
+                if button_decls.get(later.name) is not None:
+                    poll_run.append(later)
+            # take this pass's sample of every button first and run the click handlers
+            # afterwards, so that is_pressed() inside a handler sees the same sample as
+            # the rest of the pass
+            for poll in poll_run:
+                pin_expr = _emit_expr(button_decls[poll.name].pin)
+                next_var = f"__redu_button_next_{poll.name}"
+                lines.append(
+                    f"{indent}bool {next_var} = (digitalRead({pin_expr}) == HIGH);"
+                )
+                lines.append(f"{indent}__redu_button_value_{poll.name} = {next_var};")
+            for poll in poll_run:
+                decl = button_decls[poll.name]
+                next_var = f"__redu_button_next_{poll.name}"
+                prev_var = f"__redu_button_prev_{poll.name}"
+                if decl.on_click:
+                    lines.append(f"{indent}if ({next_var} && !{prev_var}) {{")
+                    lines.append(f"{indent}  {decl.on_click}();")
+                    lines.append(f"{indent}}}")
+                lines.append(f"{indent}{prev_var} = {next_var};")
             continue
 
         if isinstance(node, ServoDecl):
